@@ -411,7 +411,31 @@ class DeepStructArr(Component):
     s.whole //= s.stage[2].p.inner
 
 
+def _arr2d_const():
+  return Arr2D(0x9, [[b8(0x11), b8(0x12), b8(0x13)], [b8(0x21), b8(0x22), b8(0x23)]], 0x2)
+
+
+@bitstruct
+class Arr3D:
+  cube: [[[Bits4] * 2] * 3] * 2
+  z: Bits3
+
+
+class ConstStruct2D(Component):
+  """constant structs with multi-dimensional packed array fields (all elements distinct): tied to a port, and used as a
+  free variable of a block"""
+  def construct(s):
+    s.in_ = InPort(8); s.out = OutPort(Arr2D); s.o2 = OutPort(8); s.o3 = OutPort(Arr3D)
+    s.out //= _arr2d_const()
+    s.o3 //= Arr3D([[[b4(1), b4(2)], [b4(3), b4(4)], [b4(5), b4(6)]], [[b4(7), b4(8)], [b4(9), b4(10)], [b4(11), b4(12)]]], 0x5)
+    K = _arr2d_const()
+    @update
+    def up_cs():
+      s.o2 @= s.in_ ^ K.arr[1][0] ^ K.arr[0][2]
+
+
 DESIGNS = {
+  'x:ConstStruct2D': ConstStruct2D,
   'x:DeepStructArr': DeepStructArr,
   'x:SubIfcArr': SubIfcArr,
   'x:StructInstBehav': StructInstBehav, 'x:IfcNested': IfcNested, 'x:SubcompBehav': SubcompBehav, 'x:ElifChain': ElifChain,
